@@ -514,6 +514,19 @@ func newSpace(tier string) *graphSpace {
 			}
 		}
 	}
+	// deep chains: root -> E1 -> E1 -> ... (3 or 4 levels) -> level-0 struct, with an optional leaf sibling at one level
+	for d := 3; d <= 4; d++ {
+		for bottom := range g.l0 {
+			for kinds := 0; kinds < 1<<d; kinds++ {
+				for sib := 0; sib <= d*len(g.ls); sib++ {
+					if (bottom+kinds+sib)%stride != 0 && sib != 0 {
+						continue
+					}
+					g.units = append(g.units, unit{10 + d, bottom, kinds, sib})
+				}
+			}
+		}
+	}
 	if tier == "thorough" {
 		for i := range g.ls {
 			for j := range g.ls {
@@ -549,6 +562,22 @@ func (g *graphSpace) build(u unit) *structD {
 		s = &structD{Fields: []fieldD{l0emb(u.a).field("E1"), g.smallEmb[u.b].field("E2")}}
 	case 6:
 		s = &structD{Fields: []fieldD{g.smallEmb[u.b].field("E2"), l0emb(u.a).field("E1")}}
+	case 13, 14:
+		d := u.kind - 10
+		cur := clone(g.l0[u.a])
+		for lvl := d - 1; lvl >= 0; lvl-- {
+			fs := []fieldD{{Go: "E1", Embed: cur, Anon: true, Ptr: u.b&(1<<lvl) != 0}}
+			if u.c > 0 && (u.c-1)/len(g.ls) == lvl {
+				lf := g.ls[(u.c-1)%len(g.ls)]
+				if (u.c+lvl)%2 == 0 {
+					fs = append([]fieldD{lf}, fs...)
+				} else {
+					fs = append(fs, lf)
+				}
+			}
+			cur = &structD{Fields: fs}
+		}
+		s = cur
 	default:
 		fs := []fieldD{g.ls[u.a], g.ls[u.b]}
 		e := g.smallEmb[u.c].field("E1")
